@@ -33,6 +33,9 @@ func (f *FuncInfo) Body() *ast.BlockStmt {
 	if f.Decl != nil {
 		return f.Decl.Body
 	}
+	if f.Lit == nil {
+		return nil
+	}
 	return f.Lit.Body
 }
 
@@ -787,4 +790,32 @@ func (w *World) AssumeScan() map[string]int {
 		}
 	}
 	return out
+}
+
+// BindingObject describes what a direct FuncMap binding expression denotes:
+// "<pkgpath>.<Name>" or "<pkgpath>.<Name>[<typearg>]".
+func (w *World) BindingObject(c *Contract) string {
+	if c.bindingExpr == nil || c.Fn == nil {
+		return ""
+	}
+	info := c.Fn.Pkg.TypesInfo
+	var describe func(e ast.Expr) string
+	describe = func(e ast.Expr) string {
+		switch t := ast.Unparen(e).(type) {
+		case *ast.Ident:
+			if o := info.Uses[t]; o != nil && o.Pkg() != nil {
+				return o.Pkg().Path() + "." + o.Name()
+			}
+		case *ast.SelectorExpr:
+			if o := info.Uses[t.Sel]; o != nil && o.Pkg() != nil {
+				return o.Pkg().Path() + "." + o.Name()
+			}
+		case *ast.IndexExpr:
+			if tv, ok := info.Types[t.Index]; ok && tv.IsType() {
+				return describe(t.X) + "[" + tv.Type.String() + "]"
+			}
+		}
+		return "?" + types.ExprString(e)
+	}
+	return describe(c.bindingExpr)
 }
